@@ -361,8 +361,9 @@ def run(pid, tier, seed, do_replay=None):
             u.name, u.verdict, u.reason = "outside-modelled-subset:" + q.split("::")[1], "undecided", \
                 "; ".join(ctx.reports[q].unsupported)[:200]
             doubtful.append(u)
-    if doubtful and plan.oracles and not any(finding_for(pid, ob, findings) for ob in doubtful
-                                             if hasattr(ob, "where")):
+    # obligations that are listed open findings are reported as such; they do not ask for a replay of their own
+    doubtful = [ob for ob in doubtful if not (hasattr(ob, "where") and finding_for(pid, ob, findings))]
+    if doubtful and plan.oracles:
         for script in plan.oracles:
             path, reproduced, out = replay.run_oracle(pid, script, doubtful)
             if reproduced:
